@@ -327,8 +327,9 @@ def main():
                 redefined_before = any(k == 'ns' and 'class K' in s_ for k, s_ in earlier)
                 if redefined_before and 'K' in q.replace('KOLD', ''):
                     key = 'same-named-class-redefinition:stale-answer'
-                elif any(t in q for t in ('[1]]', '[2]]', '{}]')):
-                    key = 'unhashable-hint:id-keyed-memo'
+                elif form in ('sub', 'theq', 'thsub'):
+                    # is_subhint / TypeHint.__eq__ are memoised by id() of wrapper objects that can die
+                    key = 'door:id-keyed-memo'
                 else:
                     key = f'history-dependent:{form}:{want.split(":")[0]}->{got.split(":")[0]}'
                     if want.startswith('raise:') or got.startswith('raise:'):
